@@ -67,7 +67,7 @@ type SimReader struct {
 	EmptyReads  int
 	DataWithErr int
 	pending     error // ReadByte got its byte together with the terminal condition: reported by the next call
-	Scribbled   int // reads after which the unused part of p was overwritten
+	Scribbled   int   // reads after which the unused part of p was overwritten
 	Reads       int
 }
 
